@@ -182,6 +182,14 @@ class ChainDefaultRate(Lemma):
 
 
 UNITS = [OneName(), UnionByInclusionExclusion(), ChainDefaultRate()]
+
+
+def LATE_UNITS():
+    # "default time from the first jump below the threshold" (underlying.py) is part of C19's mechanism: the default-region
+    # states of the chain are exactly those the default-time underlyings flag; the contracts live in c17
+    from contracts import c17
+    return [c17.DefaultTimes()]
+
 ASSUMPTIONS = ["A1: floats are mathematical reals", "A3: brentq returns a root inside its bracket (implied spread); bracket adequacy not checked",
                "sign conventions of margin_tail_integral / tail_integrals at negative arguments (+mass of the joint default set for two names, (-1)^d for d names) are C12's contract"]
 TRUSTED_BASE = ["z3 5.1", "pyvc interpreter + numpy models"]
